@@ -199,4 +199,28 @@ CHECKS = {
         "text": 'Every decision both runtimes take (empty-span anchor, shift geometry, reduction spans, lexical filtering, STOP synthesis, error construction, layout-parser construction, replay protocol, table selection, right-nulled table) is extracted from both implementations and compared; a disagreement means some input is treated differently. Partial: not tree equality for concrete grammars.',
         "note": 'Trusted: rustc MIR of both generic runtimes.',
     },
+    "C01": {
+        "engine": "mirfacts",
+        "level": "other",
+        "ref": "DESIGN.md §5 C01",
+        "technique": "textbook-rule comparison of the table pipeline's decision points (FIRST, closure, propagation, fixpoint loops, phase order) extracted from MIR by path simulation; LR driver agreement",
+        "text": 'Language equality is NOT decided. Decides the decision points at which lookahead regressions land, each against the textbook rule: phase order, fixpoint loops cannot stop early, lookahead sets only grow, FIRST of a string and every production contributes, the LR(1) closure lookahead rule, successor states and registration, propagation links/direction/source, LR rejects conflicts, and that the LR driver does what the cell says.',
+        "note": 'Trusted: rustc MIR; the textbook rules (Aho et al.; DeRemer/Pennello) as oracle. That the rules iterated yield the LALR(1)/Pager automaton is not decided.',
+    },
+    "C04": {
+        "engine": "mirfacts",
+        "level": "other",
+        "ref": "DESIGN.md §5 C04",
+        "technique": 'structural rules on merge/identity/propagation/right-nulling of the table builder against the definitions, extracted from MIR by path simulation',
+        "text": 'Equality with canonical LR(1) is NOT decided. Decides where `same core, same transitions, lookaheads neither lost nor invented, only right-nulled extras` is implemented: merge only equal cores, guarded scan, all-or-nothing, items paired soundly; core identity; propagation into kernel items from all source items along GOTO and SHIFT; fixpoints cannot stop early; right-nulled lengths only for LALR_RN and only past rn_len; LR rejects conflicts.',
+        "note": 'Trusted: rustc MIR. The weak-compatibility predicate of the Pager merge is not decided.',
+    },
+    "C09": {
+        "engine": "mirfacts",
+        "level": "other",
+        "ref": "DESIGN.md §5 C09",
+        "technique": 'structural rules over the grammar builder from MIR: finite table of the EMPTY filter, adaptor whitelist, provenance of start/AUG/ntidx, guard polarity of meta inheritance, desugar templates vs the documented expansions, memo-key completeness, guarded inserts',
+        "text": 'Decides structural clauses of `the analysed grammar is the one written`: EMPTY filter drops exactly EMPTY references unconditionally; no reordering/dropping; ntidx, start symbol, AUG; meta-data inheritance polarity and order; inline literal resolution; helper rules of ?, *, + equal the documented expansions; helper reuse key covers the separator (known finding); no definition silently dropped (known findings).',
+        "note": 'Trusted: rustc MIR; docs/src/grammar_language.md as the spec of the expansions. The bootstrapped parser of the grammar language is not validated here.',
+    },
 }
